@@ -1,6 +1,7 @@
 #!/bin/bash
 # runs every claimed check's quick command sequentially (writes evidence files)
 cd /verif
+./check selftest > /tmp/check_selftest.log 2>&1; echo "selftest exit=$?"
 for id in $(python3 -c "import json;print(' '.join(c['property_id'] for c in json.load(open('MANIFEST.json'))['checks']))"); do
   s=$(date +%s); ./check $id quick > /tmp/check_$id.log 2>&1; rc=$?; e=$(date +%s)
   echo "$id exit=$rc $((e-s))s $(grep -c VIOLATION /tmp/check_$id.log) violations $(grep -c KNOWN-FINDING /tmp/check_$id.log) known"
